@@ -542,7 +542,7 @@ def clauses(tier):
     nt = "non-trivial = >= 2 stored utterances, >= 1 of them with frames, and a non-empty pre- or post-processor list"
     return [
         Clause("kaldi_tool", check_kaldi, "compute-feats-from-kaldi-tables vs the library pipeline; " + nt, _kaldi_cases, quick=140, thorough=4000),
-        Clause("torch_tool", check_torch, "signals-to-torch-feat-dir vs the library pipeline; " + nt, _torch_cases, quick=140, thorough=4000),
+        Clause("torch_tool", check_torch, "signals-to-torch-feat-dir vs the library pipeline; " + nt, _torch_cases, quick=450, thorough=9000),
         Clause("fixed_seed", check_seed, "dither > 0: same --seed twice identical, seed+1 different; non-trivial = >= 2 utterances", _seed_cases,
                quick=30, thorough=800),
     ]
